@@ -370,6 +370,10 @@ func NewSugarDB(options ...func(sugarDB *SugarDB)) (*SugarDB, error) {
 		return nil, errors.New("must provide certificate and key file paths for TLS mode")
 	}
 
+	if sugarDB.verifClusterNoSockets() {
+		sugarDB.initialiseCaches()
+		return sugarDB, nil
+	}
 	if sugarDB.isInCluster() {
 		// Initialise raft and memberlist
 		sugarDB.raft.RaftInit(sugarDB.context)
